@@ -21,7 +21,7 @@ RULE = ('argument vectors drawn from domain tables (content str/bytes/int of all
 ASSUMPTIONS = common.ASSUME_QR + [
     'domain: content str/bytes/int; option values of the documented types (floats, None for scale, non-str/tuple colours are outside)',
     'a worker that does not return within the watchdog makes the run inconclusive, not violated']
-REQUIRED = ['cli_refusals_in_process', 'evaluations', 'encode_observed', 'symbols_decoded', 'refused:ValueError', 'excluded_combination_refused',
+REQUIRED = ['cli_refusals_in_process', 'cli_unwritable_runs', 'evaluations', 'encode_observed', 'symbols_decoded', 'refused:ValueError', 'excluded_combination_refused',
             'spelling_pairs_equal', 'serializer_refusals', 'serializer_accepts', 'cli_runs', 'cli_refusals', 'cli_spelling_pairs']
 TIMEOUT = {'quick': 3600, 'thorough': 21600}
 
@@ -191,6 +191,12 @@ def gen_cases(tier, seed):
             argv.append('--no-error-boost')
         argv.append(gen.content_for_bits(rng.choice(['numeric', 'alphanumeric', 'byte']), rng.choice([1, 3, 10, 40])))
         cases.append({'kind': 'cli', 'argv': argv, 'ext': rng.choice(['png', 'svg', 'txt', 'pdf', 'eps', None, None])})
+    # CLI: the output cannot be stored
+    for how in ('missing-directory', 'is-a-directory', 'device-full'):
+        for ext in ('png', 'svg', 'txt', 'pdf', 'pbm'):
+            cases.append({'kind': 'cli-unwritable', 'how': how, 'ext': ext, 'argv': [rng.choice(['Hello', '12345', 'ABC DEF'])]})
+            if how == 'device-full':
+                cases.append({'kind': 'cli-unwritable', 'how': how, 'ext': ext, 'argv': ['--scale=20', '--version=20', 'big']})
     # CLI: documented alternative spellings give the same output as the canonical ones
     for canon, alt in ((['--version=M3'], ['--version=m3']), (['--version=M1'], ['--version=m1']), (['--version=M4', '--error=L'], ['--version=m4', '--error=l']),
                        (['--error=Q'], ['--error=q']), (['--error=H'], ['--error=h']), (['--mode=byte'], ['--mode=BYTE']),
@@ -473,6 +479,37 @@ def run_cli(case, rec, tmpdir):
         rec.deviation('C14', 'cli-refusal-without-message', what)
 
 
+def run_cli_unwritable(case, rec, tmpdir):
+    """Status 0 only after the requested output has been written: the output cannot be stored (no such directory, a
+    directory in place of the file, a device that is full) - whatever the tool says, it must not say 0."""
+    how, ext = case['how'], case['ext']
+    base = os.path.join(tmpdir, 'unw%d' % rec.counters['cli_unwritable_runs'])
+    os.makedirs(base, exist_ok=True)
+    if how == 'missing-directory':
+        target = os.path.join(base, 'no-such-dir', 'qr.' + ext)
+    elif how == 'is-a-directory':
+        target = os.path.join(base, 'adir.' + ext)
+        os.makedirs(target, exist_ok=True)
+    elif how == 'device-full':
+        if not os.path.exists('/dev/full'):
+            return
+        target = os.path.join(base, 'full.' + ext)
+        os.symlink('/dev/full', target)
+    else:
+        return
+    for launcher in (['-m', 'segno.cli'], [os.path.join(core.REPO, 'segno', 'cli.py')]):
+        p = core.run_sub([sys.executable] + launcher + ['--output=' + target] + list(case['argv']), capture_output=True,
+                         env=core.child_env(), cwd=tmpdir)
+        if p.returncode is None:
+            continue
+        rec.count('cli_unwritable_runs')
+        rec.seen('cli-unwritable|%s|%s|%s' % (how, ext, p.returncode))
+        if p.returncode == 0:
+            rec.deviation('C14', 'cli-exit0-without-output', {'how': how, 'launcher': launcher[-1][-12:], 'argv': case['argv'], 'ext': ext,
+                                                              'stderr': p.stderr.decode('utf-8', 'replace')[-200:]})
+            return
+
+
 def run_cases(cases, rec, tier='quick', seed='0'):
     import segno
     monitors.install(rec, {'C01', 'C02', 'C03'})
@@ -493,6 +530,8 @@ def run_cases(cases, rec, tier='quick', seed='0'):
             elif k == 'ser-seq':
                 for kw, expect in case['steps']:
                     run_ser({'out': case['out'], 'kw': core.dec(core.enc(kw)) if False else kw, 'expect': expect}, rec, q)
+            elif k == 'cli-unwritable':
+                run_cli_unwritable(case, rec, tmpdir)
             elif k == 'cli-pair':
                 outs = []
                 for argv in (case['canon'], case['alt']):
